@@ -624,6 +624,48 @@ func c02RestTimeout(r *core.Run) {
 			return core.MustPass(core.Entry(cal), core.Is(us...), core.IsExit) == nil
 		}
 	}
+	r.Check("D3/K2/unbuffered-bypass-only-for-websocket", "the pass-through path of the timeout handler (the real ResponseWriter handed on without goroutine, buffer or deadline) is taken only for a websocket upgrade: it is reachable only through the true edge of Header.Get(\"Upgrade\") == \"websocket\" (or strings.EqualFold of the two); any other request gets the buffered writer, so nothing a late handler writes reaches the client", func(o *core.O) {
+		if !need(o) {
+			return
+		}
+		g := run.gos[0]
+		isUpgradeGet := func(v ssa.Value) bool {
+			c, ok := core.Forward(v).(*ssa.Call)
+			if !ok || c.Call.IsInvoke() || core.CalleeName(c) != "(net/http.Header).Get" || len(c.Call.Args) != 2 {
+				return false
+			}
+			k, ok := core.ConstString(c.Call.Args[1])
+			return ok && strings.EqualFold(k, "Upgrade")
+		}
+		isWS := func(v ssa.Value) bool {
+			k, ok := core.ConstString(core.Forward(v))
+			return ok && k == "websocket"
+		}
+		ws := core.AnyOf(core.Cmp(token.EQL, isUpgradeGet, isWS), core.BoolVal(func(v ssa.Value) bool {
+			c, ok := v.(*ssa.Call)
+			if !ok || c.Call.IsInvoke() || core.CalleeName(c) != "strings.EqualFold" || len(c.Call.Args) != 2 {
+				return false
+			}
+			return (isUpgradeGet(c.Call.Args[0]) && isWS(c.Call.Args[1])) || (isUpgradeGet(c.Call.Args[1]) && isWS(c.Call.Args[0]))
+		}))
+		n := 0
+		for _, in := range collectUses() {
+			if mc, ok := in.(*ssa.MakeClosure); ok && g.Call.Value == ssa.Value(mc) {
+				continue
+			}
+			_, a := core.Reach(core.Q{From: []core.At{core.After(g)}, Target: core.Is(in)})
+			_, b := core.Reach(core.Q{From: []core.At{core.After(in)}, Target: core.Is(g)})
+			if a || b {
+				continue // buffering path: real-writer-only-in-flush-arms
+			}
+			n++
+			if w := core.Requires(serve, core.Is(in), ws); w != nil {
+				o.Fail(p.InstrPos(in), "%s hands the real ResponseWriter on without buffer and deadline on a path that did not establish Header.Get(\"Upgrade\") == \"websocket\": for such a request a handler slower than the timeout delivers its own late status and body instead of the timeout response", core.FuncName(serve))
+			}
+		}
+		o.Site(n, core.FuncName(serve)+": pass-through uses of the real writer")
+	})
+
 	r.Check("D3/K5/real-writer-only-in-flush-arms", "once the handler goroutine is started, the real ResponseWriter (the runner's parameter, or timeoutWriter.w which is only ever initialised from it) is used only inside the completion arm and the ctx.Done() arm of the select, directly or in helpers called only there; the handler-facing methods of timeoutWriter never write through timeoutWriter.w", func(o *core.O) {
 		if !need(o) {
 			return
